@@ -159,10 +159,11 @@ CLAIMED.update({
    category="proof",
    text="PARTIAL by design. Proved (Tie A): the handler table of cli.main() is regenerated from pyshacl/cli.py (translator/t3.py: except clauses in order, their exit_code, finally block, final sys.exit, early exits; class table of errors.py) and, over Python's except-dispatch semantics on method resolution orders, "
         "EVERY exception class deriving from Exception ends the command line with status 2 or 3, or 1 for a ValidationFailure whose text is written; status 0 only after a conforming report, status 1 only after a written non-conforming report or validation failure; documented families map to 2/3/1. "
+        "Also proved (Tie A, translators t4 / t5): the subclass closures generated from pyshacl/rdfutil/closure.py terminate with a result on every graph (no RecursionError for chains of any length), and the list check generated from ShapesGraph._check_rdf_lists never runs out of fuel and accepts exactly the shapes graphs whose rdf:rest chains all end (ring and rho-shaped lists are a ShapeLoadError; after acceptance every list can be enumerated). "
         "NOT a theorem: that no undocumented exception class escapes validate(). That half is decided by enumeration on the real code: ~110 hand-written ill-formed shapes graphs (every core parameter with wrong node kinds/datatypes, malformed lists/paths, bad regex, broken or misplaced SPARQL, dangling references, malformed rules/functions/targets/expressions) x options, randomly damaged well-formed shapes graphs, and the same causes through `python -m pyshacl`.",
-   note="Trusted: Coq kernel + vm_compute; translator T3; the dispatch model of coq/Mini/Cli.v (checked against cli.main() run in-process with 21 exception classes). Two listed known findings (cyclic rdf:rest -> rdflib ValueError; 1500-long subclass chain -> RecursionError in rdflib). "
+   note="Trusted: Coq kernel + vm_compute; translator T3; the dispatch model of coq/Mini/Cli.v (checked against cli.main() run in-process with 21 exception classes). The former findings (cyclic rdf:rest -> rdflib ValueError; 1500-long subclass chain -> RecursionError in rdflib) are repaired in /repo and recorded as fixed. "
         "Holds after fix commits 10d6351 (CLI), e7b54c1 (SPARQL text), bf69731, a8b486e, 6a6c2c7, d5fb213, 405affd and the sh:namespace fix in /repo.",
-   technique="translation of the CLI handler table + Coq proof over except-dispatch on MROs (all exception classes) + enumeration of failure causes through API and CLI on /repo",
+   technique="translation of the CLI handler table, the closure loops and the list check + Coq proofs (except-dispatch on MROs for all exception classes; loop invariants) + enumeration of failure causes through API and CLI on /repo",
    ref="4 (C16)"),
 })
 CLAIMED.update({
